@@ -219,3 +219,55 @@ def main():
 
 if __name__ == "__main__":
     sys.exit(main())
+
+
+REJ = re.compile(r'<<\s*"REJECTED",\s*(\d+),\s*"([^"]+)",\s*(\[.*?\])\s*>>', re.S)
+
+
+def trace_validate(ctx, module, cfg, trace_file, name=None):
+    """(C) validate a recorded implementation trace against a trace specification.
+    Returns the list of (line index, reason, event text) rejections; TLC trouble is Infra."""
+    nlines = sum(1 for _ in open(trace_file))
+    if nlines == 0:
+        return [], 0
+    env = {"TRACE_FILE": trace_file, "JAVA_TOOL_OPTIONS": "-Dtlc2.tool.queue.IStateQueue=StateDeque"}
+    rec, out = ctx.tlc(module, cfg, env=env, workers=1, expect_ok=False, name=name or module, timeout=3600)
+    rej = [(int(a), b, " ".join(c.split())) for a, b, c in REJ.findall(out)]
+    accepted = "No error has been found" in out
+    if not accepted and not rej:
+        sys.stderr.write(out[-5000:])
+        raise Infra("trace validation of %s failed without a rejection (TLC error)" % trace_file)
+    if rec["generated"] < nlines and not rej:
+        raise Infra("trace validation stopped early: %d states for %d lines" % (rec["generated"], nlines))
+    ctx.extra.setdefault("trace_events_validated", 0)
+    ctx.extra["trace_events_validated"] += nlines
+    return rej, nlines
+
+
+def absorb_rejections(ctx, rej, family, trace_file, only=None):
+    """Turn trace rejections into violation signatures (the reason string is the signature)."""
+    by = {}
+    for idx, why, ev in rej:
+        sig = why.split(":")[0]
+        by.setdefault(sig, []).append((idx, why, ev))
+    for sig, items in by.items():
+        if only is not None and sig not in only:
+            continue
+        keep = os.path.join(HOME, "replays", ctx.pid)
+        os.makedirs(keep, exist_ok=True)
+        dst = os.path.join(keep, "%s-trace-%s.ndjson" % (family, re.sub(r"[^A-Za-z0-9_.-]", "_", sig)[:60]))
+        try:
+            # keep the connection's slice of the trace around the first rejection
+            lines = open(trace_file).read().splitlines()
+            i0 = items[0][0] - 1
+            a = i0
+            while a > 0 and '"TraceReset"' not in lines[a] and '"WireReset"' not in lines[a]:
+                a -= 1
+            b = i0 + 1
+            while b < len(lines) and '"TraceReset"' not in lines[b] and '"WireReset"' not in lines[b]:
+                b += 1
+            open(dst, "w").write("\n".join(lines[a:b]) + "\n")
+        except Exception:
+            dst = trace_file
+        ctx.violations.append((sig, len(items), {"sig": sig, "detail": "%s rejected at line %d: %s | event %s" % (family, items[0][0], items[0][1], items[0][2][:300]),
+                                                   "case": {"trace": dst, "line_in_full_trace": items[0][0]}}))
